@@ -211,7 +211,8 @@ pub fn chown_tree(path: &Path) {
 /// Harness self-check: an unprivileged forked child must really be refused a file of mode 000.
 pub fn check_privilege_seam(scratch: &Path) -> Result<(), String> {
     use std::os::unix::fs::PermissionsExt;
-    let f = scratch.join("privilege-probe");
+    // (a name of its own: several checks may run side by side)
+    let f = scratch.join(format!("simplc-privilege-probe-{}", std::process::id()));
     std::fs::write(&f, b"x").map_err(|e| format!("privilege probe: {e}"))?;
     std::fs::set_permissions(&f, std::fs::Permissions::from_mode(0o000)).map_err(|e| format!("privilege probe: {e}"))?;
     chown_tree(&f);
